@@ -43,9 +43,12 @@ use std::panic::AssertUnwindSafe;
 use vh_common::*;
 
 const SCALE: u32 = 2;
-/// subscription ids are numbered by their position here; 0..=2 can be subscribed, the others
-/// never are ("unknown" ids, one of them a strict prefix of a subscribed symbol)
-const SYMBOLS: [&str; 5] = ["BTCUSDT", "ETHUSDT", "SOLUSDT", "XRPUSDT", "BTCUSD"];
+/// subscription ids are numbered by their position here; the first N_SUB can be subscribed
+/// (three of them share prefixes: BTCUSD < BTCUSDT < BTCUSDTPERP), the others never are
+/// (a lower-case spelling of a subscribed symbol, and an unrelated one); a symbol that is not
+/// subscribed in a given case also serves as an "unknown" id there
+const SYMBOLS: [&str; 6] = ["BTCUSDT", "BTCUSDTPERP", "ETHUSDT", "BTCUSD", "btcusdt", "XRPUSDT"];
+const N_SUB: usize = 4;
 const BID_GRID: [i64; 4] = [9900, 9925, 9950, 9975];
 const ASK_GRID: [i64; 4] = [10000, 10025, 10050, 10075];
 const T0: i64 = 1_700_000_000_000;
@@ -68,9 +71,11 @@ fn fmt8(x: i64) -> String {
 struct Inst {
     sid: usize,
     key: u64,
+    /// update id of deltas[0]
+    base: u64,
     l: u64,
     stime: Option<i64>,
-    /// index = update id
+    /// index = update id - base
     deltas: Vec<(Vec<Lv>, Vec<Lv>)>,
 }
 #[derive(Clone, Debug)]
@@ -89,8 +94,8 @@ struct DMsg {
 fn book_at(inst: &Inst, n: u64) -> (Vec<Lv>, Vec<Lv>) {
     let mut b: BTreeMap<i64, i64> = BTreeMap::new();
     let mut a: BTreeMap<i64, i64> = BTreeMap::new();
-    for (id, (db, da)) in inst.deltas.iter().enumerate() {
-        if id as u64 > n {
+    for (k, (db, da)) in inst.deltas.iter().enumerate() {
+        if inst.base.saturating_add(k as u64) > n {
             break;
         }
         for (p, q) in db {
@@ -107,12 +112,11 @@ fn book_at(inst: &Inst, n: u64) -> (Vec<Lv>, Vec<Lv>) {
 fn payload(inst: Option<&Inst>, bid: bool, U: u64, u: u64, net: bool) -> Vec<Lv> {
     let Some(inst) = inst else { return vec![] };
     let mut v: Vec<Lv> = vec![];
-    let mut id = U;
-    while id <= u {
-        if let Some(d) = inst.deltas.get(id as usize) {
+    for (k, d) in inst.deltas.iter().enumerate() {
+        let id = inst.base.saturating_add(k as u64);
+        if U <= id && id <= u {
             v.extend(if bid { d.0.iter() } else { d.1.iter() });
         }
-        id += 1;
     }
     if net {
         let mut out = vec![];
@@ -138,7 +142,7 @@ trait Venue {
     fn init(map: Map<u64>, snaps: &[Ev]) -> Result<Self::T, DataError>;
     fn parse(json: &str) -> <Self::T as Transformer>::Input;
     /// direct `validate_sequence` on a sequencer built from public fields
-    fn seq_call(s: (u64, u64, u64), U: u64, u: u64, pu: u64) -> (String, (u64, u64, u64));
+    fn seq_call(s: (u64, u64, u64), U: u64, u: u64, pu: u64, empty: bool) -> (String, (u64, u64, u64));
 }
 
 fn err_class(e: &DataError, seq_ctor: &str) -> String {
@@ -173,7 +177,7 @@ impl Venue for SpotV {
     fn parse(json: &str) -> BinanceSpotOrderBookL2Update {
         serde_json::from_str(json).expect("spot update json")
     }
-    fn seq_call(s: (u64, u64, u64), U: u64, u: u64, _pu: u64) -> (String, (u64, u64, u64)) {
+    fn seq_call(s: (u64, u64, u64), U: u64, u: u64, _pu: u64, empty: bool) -> (String, (u64, u64, u64)) {
         let mut sq = BinanceSpotOrderBookL2Sequencer {
             updates_processed: s.0,
             last_update_id: s.1,
@@ -184,7 +188,7 @@ impl Venue for SpotV {
             time_exchange: Default::default(),
             first_update_id: U,
             last_update_id: u,
-            bids: vec![BinanceLevel { price: dec(9950), amount: dec(100) }],
+            bids: if empty { vec![] } else { vec![BinanceLevel { price: dec(9950), amount: dec(100) }] },
             asks: vec![],
         };
         let keep = upd.clone();
@@ -220,7 +224,7 @@ impl Venue for FutV {
     fn parse(json: &str) -> BinanceFuturesOrderBookL2Update {
         serde_json::from_str(json).expect("futures update json")
     }
-    fn seq_call(s: (u64, u64, u64), U: u64, u: u64, pu: u64) -> (String, (u64, u64, u64)) {
+    fn seq_call(s: (u64, u64, u64), U: u64, u: u64, pu: u64, empty: bool) -> (String, (u64, u64, u64)) {
         let mut sq = BinanceFuturesUsdOrderBookL2Sequencer {
             updates_processed: s.0,
             last_update_id: s.1,
@@ -232,7 +236,7 @@ impl Venue for FutV {
             first_update_id: U,
             last_update_id: u,
             prev_last_update_id: pu,
-            bids: vec![BinanceLevel { price: dec(9950), amount: dec(100) }],
+            bids: if empty { vec![] } else { vec![BinanceLevel { price: dec(9950), amount: dec(100) }] },
             asks: vec![],
         };
         let keep = upd.clone();
@@ -345,12 +349,17 @@ fn msg_json<X: Venue>(insts: &[Inst], m: &DMsg) -> String {
                 .collect(),
         )
     };
-    let mut j = json!({"e": "depthUpdate", "E": m.e, "s": SYMBOLS[m.sid], "U": m.U, "u": m.u,
+    // every field the connector must NOT use carries a decoy that differs from the used ones:
+    // another instrument's stream name / pair, a bogus lastUpdateId, nested ids; spot payloads
+    // have no T / pu: there they are decoys too (serde ignores unknown fields)
+    let other = SYMBOLS[(m.sid + 1) % N_SUB];
+    let mut j = json!({"stream": format!("{}@depth@100ms", other.to_lowercase()), "ps": other,
+                       "e": "depthUpdate", "E": m.e, "s": SYMBOLS[m.sid], "U": m.U, "u": m.u,
+                       "lastUpdateId": m.u.wrapping_add(7), "firstUpdateId": m.U.wrapping_sub(3),
+                       "data": {"U": 1, "u": 2, "pu": 0, "s": other},
                        "b": lv(true), "a": lv(false)});
-    if !X::SPOT {
-        j["T"] = json!(m.t);
-        j["pu"] = json!(m.pu);
-    }
+    j["T"] = json!(m.t);
+    j["pu"] = json!(m.pu);
     j.to_string()
 }
 
@@ -362,13 +371,23 @@ struct Ran {
     nontrivial: bool,
 }
 
-fn run_stream<X: Venue>(insts: &[Inst], msgs: &[DMsg]) -> Ran {
+fn run_stream<X: Venue>(insts: &[Inst], msgs: &[DMsg], sord: &[usize]) -> Ran {
     let map: Map<u64> = Map(insts
         .iter()
         .map(|i| (sub_id(i.sid), i.key))
         .collect::<FnvHashMap<_, _>>());
     let snaps: Vec<Ev> = insts.iter().map(snapshot_event::<X>).collect();
-    let mut tr = X::init(map, &snaps).expect("init");
+    // the snapshot slice handed to init is in its own order (a permutation of the instruments)
+    let init_snaps: Vec<Ev> = if sord.len() == snaps.len() && {
+        let mut c = sord.to_vec();
+        c.sort();
+        c == (0..snaps.len()).collect::<Vec<_>>()
+    } {
+        sord.iter().map(|k| snaps[*k].clone()).collect()
+    } else {
+        snaps.clone()
+    };
+    let mut tr = X::init(map, &init_snaps).expect("init");
     let mut books: Vec<(u64, OrderBook)> = insts
         .iter()
         .zip(snaps.iter())
@@ -451,9 +470,10 @@ fn run_stream<X: Venue>(insts: &[Inst], msgs: &[DMsg]) -> Ran {
             let (bids, asks) = book_at(i, i.l);
             let rev = |v: &[Lv]| -> Vec<Lv> { v.iter().rev().cloned().collect() };
             format!(
-                "(mkI {} {} {} {} {} {} {})",
+                "(mkI {} {} {} {} {} {} {} {})",
                 i.sid,
                 i.key,
+                i.base,
                 i.l,
                 coq_optz(i.stime),
                 coq_lv(&rev(&bids)),
@@ -487,8 +507,8 @@ fn run_stream<X: Venue>(insts: &[Inst], msgs: &[DMsg]) -> Ran {
     Ran { coq, tags, nontrivial }
 }
 
-fn run_seq<X: Venue>(s: (u64, u64, u64), U: u64, u: u64, pu: u64) -> Ran {
-    let (r, s2) = X::seq_call(s, U, u, pu);
+fn run_seq<X: Venue>(s: (u64, u64, u64), U: u64, u: u64, pu: u64, empty: bool) -> Ran {
+    let (r, s2) = X::seq_call(s, U, u, pu, empty);
     let phase = if s.0 == 0 { "first" } else { "next" };
     let tag = if r.starts_with("(ROk") { "ok" } else if r == "RDrop" { "drop" } else { "err" };
     Ran {
@@ -502,7 +522,7 @@ fn run_seq<X: Venue>(s: (u64, u64, u64), U: u64, u: u64, pu: u64) -> Ran {
             r,
             coq_seq(s2)
         ),
-        tags: vec![format!("{}:seq:{}:{}", X::NAME, phase, tag)],
+        tags: vec![format!("{}:seq:{}:{}{}", X::NAME, phase, tag, if empty { ":empty" } else { "" })],
         nontrivial: s2 != s,
     }
 }
@@ -568,17 +588,17 @@ fn lv_from(v: &Value) -> Option<Vec<Lv>> {
         })
         .collect()
 }
-fn stream_json(fut: bool, insts: &[Inst], msgs: &[DMsg]) -> Value {
+fn stream_json(fut: bool, insts: &[Inst], msgs: &[DMsg], sord: &[usize]) -> Value {
     json!({
-        "kind": "stream", "venue": if fut { "fut" } else { "spot" },
+        "kind": "stream", "venue": if fut { "fut" } else { "spot" }, "sord": sord,
         "insts": insts.iter().map(|i| json!({
-            "sid": i.sid, "key": i.key, "L": i.l, "stime": i.stime,
+            "sid": i.sid, "key": i.key, "base": i.base, "L": i.l, "stime": i.stime,
             "deltas": i.deltas.iter().map(|(db, da)| json!({"b": lv_json(db), "a": lv_json(da)})).collect::<Vec<_>>()
         })).collect::<Vec<_>>(),
         "msgs": msgs.iter().map(|m| json!({"sid": m.sid, "U": m.U, "u": m.u, "pu": m.pu, "E": m.e, "T": m.t, "net": m.net})).collect::<Vec<_>>(),
     })
 }
-fn stream_from(v: &Value) -> Option<(bool, Vec<Inst>, Vec<DMsg>)> {
+fn stream_from(v: &Value) -> Option<(bool, Vec<Inst>, Vec<DMsg>, Vec<usize>)> {
     let fut = v["venue"].as_str()? == "fut";
     let insts = v["insts"]
         .as_array()?
@@ -587,6 +607,7 @@ fn stream_from(v: &Value) -> Option<(bool, Vec<Inst>, Vec<DMsg>)> {
             Some(Inst {
                 sid: i["sid"].as_u64()? as usize,
                 key: i["key"].as_u64()?,
+                base: i["base"].as_u64().unwrap_or(0),
                 l: i["L"].as_u64()?,
                 stime: i["stime"].as_i64(),
                 deltas: i["deltas"]
@@ -612,10 +633,16 @@ fn stream_from(v: &Value) -> Option<(bool, Vec<Inst>, Vec<DMsg>)> {
             })
         })
         .collect::<Option<Vec<_>>>()?;
-    if insts.iter().any(|i| i.sid >= 3) || msgs.iter().any(|m| m.sid >= SYMBOLS.len()) {
+    if insts.iter().any(|i| i.sid >= N_SUB || i.base > u64::MAX - 2 - i.deltas.len() as u64)
+        || msgs.iter().any(|m| m.sid >= SYMBOLS.len() || m.u.saturating_sub(m.U) > 64)
+    {
         return None;
     }
-    Some((fut, insts, msgs))
+    let sord: Vec<usize> = v["sord"]
+        .as_array()
+        .map(|a| a.iter().filter_map(|x| x.as_u64().map(|k| k as usize)).collect())
+        .unwrap_or_default();
+    Some((fut, insts, msgs, sord))
 }
 
 /// the implementation panicked (or could not be driven) outside the individually observed calls
@@ -625,21 +652,21 @@ fn crashed(what: u64) -> Ran {
 fn emit(em: &mut Emitter, stream: &'static str, input: Value, r: Ran) {
     em.emit(Case { stream, input, coq: r.coq, nontrivial: r.nontrivial, tags: r.tags });
 }
-fn emit_stream(em: &mut Emitter, stream: &'static str, fut: bool, insts: &[Inst], msgs: &[DMsg], extra: &[String]) {
+fn emit_stream(em: &mut Emitter, stream: &'static str, fut: bool, insts: &[Inst], msgs: &[DMsg], sord: &[usize], extra: &[String]) {
     let mut r = catch(AssertUnwindSafe(|| {
-        if fut { run_stream::<FutV>(insts, msgs) } else { run_stream::<SpotV>(insts, msgs) }
+        if fut { run_stream::<FutV>(insts, msgs, sord) } else { run_stream::<SpotV>(insts, msgs, sord) }
     }))
     .unwrap_or_else(|_| crashed(1));
     r.tags.extend(extra.iter().cloned());
-    emit(em, stream, stream_json(fut, insts, msgs), r);
+    emit(em, stream, stream_json(fut, insts, msgs, sord), r);
 }
-fn emit_seq(em: &mut Emitter, stream: &'static str, fut: bool, s: (u64, u64, u64), U: u64, u: u64, pu: u64) {
+fn emit_seq(em: &mut Emitter, stream: &'static str, fut: bool, s: (u64, u64, u64), U: u64, u: u64, pu: u64, empty: bool) {
     let r = catch(AssertUnwindSafe(|| {
-        if fut { run_seq::<FutV>(s, U, u, pu) } else { run_seq::<SpotV>(s, U, u, pu) }
+        if fut { run_seq::<FutV>(s, U, u, pu, empty) } else { run_seq::<SpotV>(s, U, u, pu, empty) }
     }))
     .unwrap_or_else(|_| crashed(2));
     emit(em, stream, json!({"kind": "seq", "venue": if fut {"fut"} else {"spot"},
-        "s": [s.0, s.1, s.2], "U": U, "u": u, "pu": pu}), r);
+        "s": [s.0, s.1, s.2], "U": U, "u": u, "pu": pu, "empty": empty}), r);
 }
 fn emit_init(em: &mut Emitter, stream: &'static str, fut: bool, imap: &[(usize, u64)], snaps: &[(u64, bool, u64)]) {
     let r = catch(AssertUnwindSafe(|| {
@@ -654,27 +681,46 @@ fn emit_init(em: &mut Emitter, stream: &'static str, fut: bool, imap: &[(usize, 
 // ---- generators -----------------------------------------------------------------------------------
 
 /// exhaustive single-call table: state class (first / next) x every relative position of
-/// U, u (and pu for futures) around last_update_id = 10
+/// U, u (and pu for futures) around last_update_id, for last_update_id = 10, = 0 and
+/// = 2^64 - 4 (ids up to the stated bound 2^64 - 2), each with a non-empty and an EMPTY update
 fn table(em: &mut Emitter) {
+    const M: u64 = u64::MAX - 3;
     for fut in [false, true] {
-        for ups in [0u64, 1, 7] {
-            for U in 8..=13u64 {
-                for u in 8..=13u64 {
-                    let pus: Vec<u64> = if fut { vec![8, 9, 10, 11, 12] } else { vec![7] };
-                    for pu in pus {
-                        emit_seq(em, "table", fut, (ups, 10, 4), U, u, pu);
+        for (last, prev, lo, hi) in [(10u64, 4u64, 8u64, 13u64), (0, 0, 0, 3), (M, M - 6, M - 2, M + 2)] {
+            for ups in [0u64, 1, 7] {
+                for U in lo..=hi {
+                    for u in lo..=hi {
+                        let pus: Vec<u64> = if fut { (lo..hi).collect() } else { vec![last.saturating_sub(3)] };
+                        for pu in pus {
+                            for empty in [false, true] {
+                                emit_seq(em, "table", fut, (ups, last, prev), U, u, pu, empty);
+                            }
+                        }
                     }
                 }
             }
         }
         // init: happy path, first matching snapshot wins, missing snapshot, update instead of
-        // snapshot
+        // snapshot, empty map, equal snapshot ids, ids 0 and 2^64 - 2
         emit_init(em, "table", fut, &[(0, 10), (1, 20)], &[(20, true, 7), (10, true, 5)]);
         emit_init(em, "table", fut, &[(0, 10), (1, 20)], &[(10, true, 5), (10, true, 9), (20, true, 0)]);
         emit_init(em, "table", fut, &[(0, 10), (1, 20)], &[(10, true, 5)]);
         emit_init(em, "table", fut, &[(0, 10), (1, 20)], &[(20, false, 7), (10, true, 5)]);
         emit_init(em, "table", fut, &[(2, 30)], &[]);
         emit_init(em, "table", fut, &[], &[(10, true, 5)]);
+        emit_init(em, "table", fut, &[(0, 10), (3, 20)], &[(20, true, 6), (10, true, 6)]);
+        emit_init(em, "table", fut, &[(1, 10), (0, 20)], &[(20, true, u64::MAX - 1), (10, true, 0)]);
+        // three and four instruments (prefix-sharing symbols), every order of the snapshot slice:
+        // the hash map's iteration order must not matter
+        let imap3 = [(0usize, 10u64), (1, 20), (3, 30)];
+        let snaps3 = [(10u64, true, 5u64), (20, true, 7), (30, true, 9)];
+        for perm in [[0usize, 1, 2], [0, 2, 1], [1, 0, 2], [1, 2, 0], [2, 0, 1], [2, 1, 0]] {
+            let sn: Vec<(u64, bool, u64)> = perm.iter().map(|k| snaps3[*k]).collect();
+            emit_init(em, "table", fut, &imap3, &sn);
+        }
+        let imap4 = [(3usize, 40u64), (2, 30), (1, 20), (0, 10)];
+        emit_init(em, "table", fut, &imap4, &[(10, true, 1), (20, true, 2), (30, true, 3), (40, true, 4)]);
+        emit_init(em, "table", fut, &imap4, &[(30, true, 3), (10, true, 1), (40, true, 4), (20, true, 2)]);
     }
 }
 
@@ -695,30 +741,58 @@ fn gen_levels(r: &mut Rng, grid: &[i64; 4]) -> Vec<Lv> {
         .collect()
 }
 
-fn gen_inst(r: &mut Rng, fut: bool, sid: usize, key: u64, n_ids: u64) -> GenInst {
+/// is the genuine message (U, u) one without any level change (both lists empty)?
+fn is_quiet(inst: &Inst, U: u64, u: u64) -> bool {
+    payload(Some(inst), true, U, u, false).is_empty() && payload(Some(inst), false, U, u, false).is_empty()
+}
+
+/// `base`: update id of the first (change-free) id of the simulated exchange; `force_l`: make
+/// the snapshot id this one if it is within the exchange's ids (two instruments whose snapshots
+/// carry the same lastUpdateId)
+fn gen_inst(r: &mut Rng, fut: bool, sid: usize, key: u64, n_ids: u64, base_kind: u64, force_l: Option<u64>) -> GenInst {
+    // local ids first
     let mut ranges = vec![];
     let mut cur = 1u64;
     let mut prev_u = 0u64;
     while cur <= n_ids {
         let gap = if fut && r.chance(1, 4) { 1 + r.below(2) } else { 0 };
         let U = cur + gap;
-        let u = U + *r.pick(&[0u64, 0, 1, 1, 2]);
-        ranges.push((U, u, if fut { prev_u } else { U - 1 }));
+        let u = U + *r.pick(&[0u64, 0, 0, 1, 1, 2]);
+        // on spot the previous-id field does not exist: a decoy unrelated to the chain
+        ranges.push((U, u, if fut { prev_u } else { r.below(u + 3) }));
         prev_u = u;
         cur = u + 1;
     }
     let mut deltas = vec![(vec![], vec![]); (prev_u + 1) as usize];
     for (U, u, _) in &ranges {
+        // a quarter of the messages are "quiet": no level change at all (venues do send them)
+        let quiet = r.chance(1, 4);
         for id in *U..=*u {
-            deltas[id as usize] = (gen_levels(r, &BID_GRID), gen_levels(r, &ASK_GRID));
+            if !quiet {
+                deltas[id as usize] = (gen_levels(r, &BID_GRID), gen_levels(r, &ASK_GRID));
+            }
         }
     }
+    let base = match base_kind {
+        0 => u64::MAX - 1 - prev_u - 8 - r.below(3), // ids up to within a dozen of 2^64 - 2
+        1 => 22_611_425_143 + r.below(1000),         // a realistic magnitude
+        _ => 0,                                      // ids from 0: snapshot id 0 occurs
+    };
     // snapshot point: at a boundary of some message of the first two thirds of the stream
     let j = r.below((ranges.len() as u64 * 2 / 3).max(1)) as usize;
     let (U, u, _) = ranges[j];
-    let l = (*r.pick(&[U.saturating_sub(2), U - 1, U, u, u, u + 1])).min(prev_u);
+    let mut l = base + (*r.pick(&[U.saturating_sub(2), U - 1, U, u, u, u + 1])).min(prev_u);
+    if let Some(f) = force_l {
+        if base <= f && f <= base + prev_u {
+            l = f;
+        }
+    }
     let stime = if fut && r.chance(3, 4) { Some(T0 - 1 - r.below(50) as i64) } else { None };
-    GenInst { inst: Inst { sid, key, l, stime, deltas }, ranges }
+    let ranges = ranges
+        .into_iter()
+        .map(|(U, u, pu)| (base + U, base + u, if fut { base + pu } else { pu }))
+        .collect();
+    GenInst { inst: Inst { sid, key, base, l, stime, deltas }, ranges }
 }
 
 /// one instrument's delivery: a start point and a few perturbations of the genuine stream
@@ -727,29 +801,38 @@ fn gen_delivery(r: &mut Rng, fut: bool, g: &GenInst, n_perturb: u64, wild: bool,
     let exact = g
         .ranges
         .iter()
-        .position(|(_, u, _)| if fut { *u >= l } else { *u >= l + 1 })
+        .position(|(_, u, _)| if fut { *u >= l } else { *u > l })
         .unwrap_or(g.ranges.len());
-    let start = match r.below(8) {
+    // a quiet message after the one that reaches the snapshot: starting there is starting late
+    let quiet_late = (exact + 1..g.ranges.len()).find(|k| is_quiet(&g.inst, g.ranges[*k].0, g.ranges[*k].1));
+    let start = match r.below(9) {
         0..=3 => { tags.push("start:early".into()); 0 }
         4 | 5 => { tags.push("start:exact".into()); exact }
         6 => { tags.push("start:late".into()); (exact + 1).min(g.ranges.len()) }
+        7 => match quiet_late {
+            Some(k) => { tags.push("start:late_at_empty".into()); k }
+            None => { tags.push("start:exact".into()); exact }
+        },
         _ => { tags.push("start:random".into()); r.below(g.ranges.len() as u64 + 1) as usize }
     };
     let mk = |r: &mut Rng, (U, u, pu): (u64, u64, u64)| -> DMsg {
-        let nlev: usize = (U..=u).map(|id| g.inst.deltas.get(id as usize).map(|d| d.0.len().max(d.1.len())).unwrap_or(0)).sum();
-        let e = T0 + 10 * u as i64;
-        DMsg { sid: g.inst.sid, U, u, pu, e, t: e - 1, net: nlev > 8 || r.chance(3, 4) }
+        let nlev = payload(Some(&g.inst), true, U, u, false).len().max(payload(Some(&g.inst), false, U, u, false).len());
+        // exchange time E and engine time T are unrelated to the ids and to each other
+        let e = T0 + r.below(1_000_000) as i64;
+        let t = T0 + 2_000_000 + r.below(1_000_000) as i64;
+        DMsg { sid: g.inst.sid, U, u, pu, e, t, net: nlev > 8 || r.chance(3, 4) }
     };
     let mut d: Vec<DMsg> = g.ranges[start..].iter().map(|x| mk(r, *x)).collect();
     if n_perturb == 0 {
         tags.push("perturb:none".into());
     }
+    let quiet_at = |d: &Vec<DMsg>, k: usize| k < d.len() && d[k].U <= d[k].u && is_quiet(&g.inst, d[k].U, d[k].u);
     for _ in 0..n_perturb {
         if d.is_empty() {
             break;
         }
         let i = r.below(d.len() as u64) as usize;
-        match r.below(if wild { 6 } else { 4 }) {
+        match r.below(if wild { 8 } else { 6 }) {
             0 => { tags.push("perturb:drop".into()); d.remove(i); }
             1 => {
                 tags.push("perturb:dup".into());
@@ -769,6 +852,28 @@ fn gen_delivery(r: &mut Rng, fut: bool, g: &GenInst, n_perturb: u64, wild: bool,
                     d.insert(i + 1 + k, m);
                 }
             }
+            4 => {
+                // the same message three times (adjacent, or the copies spread out)
+                tags.push("perturb:triple".into());
+                let c = d[i].clone();
+                let at1 = (i + 1 + r.below(2) as usize).min(d.len());
+                d.insert(at1, c.clone());
+                let at2 = (at1 + 1 + r.below(3) as usize).min(d.len());
+                d.insert(at2, c);
+            }
+            5 => {
+                // lose the message right before a quiet (empty) one: the first message after
+                // the gap carries no levels
+                let cands: Vec<usize> = (0..d.len().saturating_sub(1)).filter(|k| quiet_at(&d, k + 1) && !quiet_at(&d, *k)).collect();
+                if cands.is_empty() {
+                    tags.push("perturb:drop".into());
+                    d.remove(i);
+                } else {
+                    tags.push("perturb:drop_before_empty".into());
+                    let k = *r.pick(&cands);
+                    d.remove(k);
+                }
+            }
             _ => {
                 // a message that is not the exchange's: arbitrary ids near position i
                 tags.push("perturb:wild".into());
@@ -776,24 +881,34 @@ fn gen_delivery(r: &mut Rng, fut: bool, g: &GenInst, n_perturb: u64, wild: bool,
                 let U = (base + r.below(4)).saturating_sub(1);
                 let u = (U + r.below(4)).saturating_sub(1);
                 let pu = (U + r.below(3)).saturating_sub(2);
-                let e = T0 + 10 * u as i64;
-                d.insert(i, DMsg { sid: g.inst.sid, U, u, pu, e, t: e - 1, net: r.chance(1, 2) });
+                let e = T0 + r.below(1_000_000) as i64;
+                d.insert(i, DMsg { sid: g.inst.sid, U, u, pu, e, t: e + 2_000_000, net: r.chance(1, 2) });
             }
         }
     }
     d
 }
 
-fn gen_stream(r: &mut Rng, fut: bool, max_ids: u64, adversarial: bool) -> (Vec<Inst>, Vec<DMsg>, Vec<String>) {
-    let n_inst = *r.pick(&[1usize, 2, 2, 3, 3]);
-    let mut sids = [0usize, 1, 2];
+fn gen_stream(r: &mut Rng, fut: bool, max_ids: u64, adversarial: bool) -> (Vec<Inst>, Vec<DMsg>, Vec<usize>, Vec<String>) {
+    let n_inst = *r.pick(&[1usize, 2, 2, 3, 3, 3, 4]);
+    let mut sids = [0usize, 1, 2, 3];
     r.shuffle(&mut sids);
-    let mut tags = vec![];
-    let mut gens = vec![];
+    let mut tags = vec![format!("instruments:{n_inst}")];
+    let mut gens: Vec<GenInst> = vec![];
     for k in 0..n_inst {
         let n_ids = 4 + r.below(max_ids - 3);
         let key = 10 * (1 + ((k as u64 + r.below(3)) % 3)) + k as u64;
-        gens.push(gen_inst(r, fut, sids[k], key, n_ids));
+        // mostly ids from 0 (compact), some at a realistic magnitude, some just below 2^64 - 2
+        let base_kind = *r.pick(&[2u64, 2, 2, 2, 2, 1, 1, 0]);
+        // now and then two instruments whose snapshots carry the same lastUpdateId
+        let force_l = if k > 0 && r.chance(1, 3) { Some(gens[0].inst.l) } else { None };
+        let g = gen_inst(r, fut, sids[k], key, n_ids, if force_l.is_some() { 3 } else { base_kind }, force_l);
+        if k > 0 && g.inst.l == gens[0].inst.l {
+            tags.push("equal_snapshot_ids".into());
+        }
+        if g.inst.l == 0 { tags.push("snapshot_id:0".into()); }
+        if g.inst.base > u64::MAX / 2 { tags.push("ids:near_u64_max".into()); }
+        gens.push(g);
     }
     let mut queues: Vec<Vec<DMsg>> = gens
         .iter()
@@ -804,6 +919,8 @@ fn gen_stream(r: &mut Rng, fut: bool, max_ids: u64, adversarial: bool) -> (Vec<I
             q
         })
         .collect();
+    // the ids nobody subscribed to in this case (always includes the lower-case spelling)
+    let unknown: Vec<usize> = (0..SYMBOLS.len()).filter(|s| !gens.iter().any(|g| g.inst.sid == *s)).collect();
     // interleave, each instrument's order preserved; now and then a message for a
     // subscription id nobody subscribed to
     let mut msgs = vec![];
@@ -813,15 +930,20 @@ fn gen_stream(r: &mut Rng, fut: bool, max_ids: u64, adversarial: bool) -> (Vec<I
             break;
         }
         if r.chance(1, if adversarial { 12 } else { 40 }) {
-            let U = 1 + r.below(20);
-            let e = T0 + U as i64;
-            msgs.push(DMsg { sid: 3 + r.below(2) as usize, U, u: U + r.below(3), pu: U - 1, e, t: e - 1, net: true });
+            // ids in the range of a subscribed instrument, so that mis-routing would matter
+            let near = gens[r.below(gens.len() as u64) as usize].inst.l;
+            let U = near.saturating_add(r.below(3)).min(u64::MAX - 4);
+            let e = T0 + r.below(1_000_000) as i64;
+            msgs.push(DMsg { sid: *r.pick(&unknown), U, u: U + r.below(3), pu: U.saturating_sub(1), e, t: e + 2_000_000, net: true });
             continue;
         }
         let k = *r.pick(&live);
         msgs.push(queues[k].pop().unwrap());
     }
-    (gens.into_iter().map(|g| g.inst).collect(), msgs, tags)
+    // the snapshot slice handed to init: its own order
+    let mut sord: Vec<usize> = (0..n_inst).collect();
+    r.shuffle(&mut sord);
+    (gens.into_iter().map(|g| g.inst).collect(), msgs, sord, tags)
 }
 
 fn main() {
@@ -839,12 +961,12 @@ fn main() {
             }
             for fut in [false, true] {
                 for _ in 0..n_rand {
-                    let (insts, msgs, tags) = gen_stream(&mut r, fut, max_ids, false);
-                    emit_stream(&mut em, "random", fut, &insts, &msgs, &tags);
+                    let (insts, msgs, sord, tags) = gen_stream(&mut r, fut, max_ids, false);
+                    emit_stream(&mut em, "random", fut, &insts, &msgs, &sord, &tags);
                 }
                 for _ in 0..n_adv {
-                    let (insts, msgs, tags) = gen_stream(&mut r, fut, max_ids, true);
-                    emit_stream(&mut em, "adversarial", fut, &insts, &msgs, &tags);
+                    let (insts, msgs, sord, tags) = gen_stream(&mut r, fut, max_ids, true);
+                    emit_stream(&mut em, "adversarial", fut, &insts, &msgs, &sord, &tags);
                 }
             }
         }
@@ -855,13 +977,13 @@ fn main() {
                 // malformed inputs (the shrinker deletes array elements blindly) are skipped
                 let _ = catch(AssertUnwindSafe(|| match inp["kind"].as_str() {
                     Some("stream") => {
-                        if let Some((fut, insts, msgs)) = stream_from(&inp) {
+                        if let Some((fut, insts, msgs, sord)) = stream_from(&inp) {
                             let mut keys: Vec<u64> = insts.iter().map(|i| i.key).collect();
                             let mut sids: Vec<usize> = insts.iter().map(|i| i.sid).collect();
                             keys.sort(); keys.dedup(); sids.sort(); sids.dedup();
                             if keys.len() == insts.len() && sids.len() == insts.len()
-                                && insts.iter().all(|i| (i.l as usize) < i.deltas.len().max(1) + 2) {
-                                emit_stream(&mut em, st, fut, &insts, &msgs, &[]);
+                                && insts.iter().all(|i| i.l.saturating_sub(i.base) <= i.deltas.len() as u64 + 2) {
+                                emit_stream(&mut em, st, fut, &insts, &msgs, &sord, &[]);
                             }
                         }
                     }
@@ -871,7 +993,7 @@ fn main() {
                             s[0].as_u64(), s[1].as_u64(), s[2].as_u64(),
                             inp["U"].as_u64(), inp["u"].as_u64(), inp["pu"].as_u64(),
                         ) {
-                            emit_seq(&mut em, st, fut, (a, b_, c), U, u, pu);
+                            emit_seq(&mut em, st, fut, (a, b_, c), U, u, pu, inp["empty"].as_bool().unwrap_or(false));
                         }
                     }
                     Some("init") => {
